@@ -118,8 +118,9 @@ def r_vatin(rel, x):
     bad = []
     if cc in VATMAP:
         m = M(VATMAP[cc])
-        a = core.out(m.validate, n[2:])
-        b = core.out(m.validate, n)
+        # whitespace between the country code and the number is dropped by the dispatcher (as its compact() does)
+        a = core.out(m.validate, n[2:].strip())
+        b = core.out(m.validate, n[:2] + n[2:].strip())
         if a[0] == 'EXC' or b[0] == 'EXC':
             return None
         exp = ('ok', n[:2].upper() + a[1]) if acc(a) else b
